@@ -156,7 +156,7 @@ impl Property for NatProp {
             let rip = CODE_BASE + 0x200;
             let mut e = Encoder::new(64);
             e.encode(&ins, rip).ok()?;
-            Some(NCase { code: crate::util::hex(&e.take_buffer()), rip, gpr, rflags, xmm: [[0; 2]; 16], fs: 0, gs: 0, mem_seed: 7, patches: vec![], note: note.into(), layout: 0, steps: 0 })
+            Some(NCase { code: crate::util::hex(&e.take_buffer()), rip, gpr, rflags, xmm: [[0; 2]; 16], fs: 0, gs: 0, mem_seed: 7, patches: vec![], note: note.into(), layout: 0, steps: 0, pre: String::new() })
         };
         match self.which {
             Which::C02 => {
@@ -232,7 +232,7 @@ impl Property for NatProp {
             patches: vec![],
             note: "unencodable".into(),
             layout: 0,
-            steps: 0,
+            steps: 0, pre: String::new()
         });
         if self.which == Which::C04 {
             let mut t4 = Tape::new(&tape[0][100..]);
@@ -257,7 +257,7 @@ impl Property for NatProp {
                     let slot = crate::prog::slot_addr(base, t4.below(n as u64) as usize);
                     patches.push((rsp - 16 + 8 * k, crate::util::hex(&slot.to_le_bytes())));
                 }
-                return NCase { code: crate::util::hex(&img), rip: base, gpr, rflags: rows.raw() & 0x8d5, xmm: [[0; 2]; 16], fs: 0, gs: 0, mem_seed: rows.raw(), patches, note: format!("program {:?}", prog), layout: 0, steps: 24 };
+                return NCase { code: crate::util::hex(&img), rip: base, gpr, rflags: rows.raw() & 0x8d5, xmm: [[0; 2]; 16], fs: 0, gs: 0, mem_seed: rows.raw(), patches, note: format!("program {:?}", prog), layout: 0, steps: 24, pre: String::new() };
             }
             // single instruction with an RSP-based memory operand: the slot bias moves the explicit operand
             // by one operand size on the biased CPU run, so both candidate cells get the same contents
